@@ -918,3 +918,9 @@ def mapped_helper(repo, fi):
                 if m_ is not None:
                     found.append((m_, 1, n))
     return found[0] if len(found) == 1 else None
+
+
+def decoder_state_guarded(fi):
+    """the function tests the incremental decoder's own state (`decoder.getstate()`): a per-chunk decode under such a guard (an "ASCII
+    fast path while the decoder is idle") may or may not equal incremental decoding -- a question about codec state, not about shape"""
+    return any(isinstance(k, ast.Call) and isinstance(k.func, ast.Attribute) and k.func.attr == 'getstate' for k in ast.walk(fi.node))
